@@ -228,9 +228,13 @@ func (e *Exec) callFunction(callee *ssa.Function, bindings, args []Value, guard 
 			if r, ok := e.inlineCall(callee, bindings, args, guard); ok {
 				return r
 			}
-			panic(missingContract{key, e.Key})
+			// a module function without a contract that cannot be executed in place (loops, defers, recursion):
+			// its effect and its own safety are unknown - reported as a failed obligation at the call, and the
+			// caller is verified against the weakest contract for it
+			e.oblige("pre", "uncontracted@"+shortKey(key), "call of "+shortKey(key)+", a module function without a contract (not inlinable): nothing is known about it", nil, guard, "false")
+			con = e.unknownExtern(key)
 		} else {
-			panic(missingContract{key, e.Key})
+			con = e.unknownExtern(key)
 		}
 	}
 	all := append(append([]Value{}, args...), bindings...)
@@ -695,7 +699,7 @@ func (e *Exec) invoke(c *ssa.CallCommon, recv Value, args []Value, guard string)
 		return Value{T: tString, S: []string{e.freshConst("errmsg", "Str")}}
 	}
 	if !inMod {
-		panic(missingContract{ikey, e.Key})
+		return e.applyContract(e.unknownExtern(ikey), nil, c.Signature(), append([]Value{recv}, args...), guard, "")
 	}
 	impls := e.implementations(it, c.Method)
 	if len(impls) == 0 {
@@ -1140,6 +1144,20 @@ func (e *Exec) defaultExtern(callee *ssa.Function, key string) *Contract {
 	defaultedExterns[key] = true
 	c := &Contract{Key: key, RawName: key, PkgPath: callee.Pkg.Pkg.Path(), Extern: true, Pure: true, Loops: map[int]*LoopSpec{},
 		Trusted: "defaulted: standard-library function with scalar arguments only, treated as effect-free with an arbitrary result"}
+	e.CS.ByKey[key] = c
+	return c
+}
+
+// unknownExtern: a function outside the module for which no contract was written and which does not qualify
+// for the effect-free default. It is given the weakest contract there is - it may change every modelled heap,
+// element, map and ghost component and returns arbitrary well-formed values - so that the verification of
+// its caller goes on and whatever the caller's contract promised is checked against that (a sound
+// over-approximation; recorded in the evidence when used). Writing a real contract for it is the way to get
+// back what the over-approximation loses.
+func (e *Exec) unknownExtern(key string) *Contract {
+	defaultedExterns[key] = true
+	c := &Contract{Key: key, RawName: key, Extern: true, NoFrame: true, Loops: map[int]*LoopSpec{},
+		Trusted: "defaulted: no contract for this external function - treated as changing anything and returning anything"}
 	e.CS.ByKey[key] = c
 	return c
 }
